@@ -40,6 +40,18 @@ def cases(chk):
         yield "lib-decodes-ref", {"tree": to_json(("iq", [("id", "12-3.5")], b"99@g.us", [])), "seed": 100 + s, "deflate": 0}
     big = ("enc", [], bytes([1]) * 0x100000, [])
     yield "lib-decodes-ref", {"tree": to_json(("m", [], None, [big, ("z", [], None, [])])), "seed": 3, "deflate": 0}
+    # list headers around every size boundary: integer literals of the current coder sources, +-1 (children count, and the node's own
+    # list size 1 + 2*attributes + content)
+    sizes = sorted(set(v + d for v in chk.lits for d in (-1, 0, 1) if 1 <= v + d <= (2000 if chk.quick() else 70000)) | {255, 256, 257})
+    for nk in sizes:
+        t = ("list", [], None, [("item", [], None, [])] * nk)
+        yield "ref-decodes-lib", {"tree": to_json(t)}
+        yield "lib-decodes-ref", {"tree": to_json(t), "seed": r.randrange(1 << 30), "deflate": 0}
+        if nk >= 3 and nk <= 2000:
+            na = (nk - 1) // 2
+            t = ("n", [("k%d" % i, "v%d" % i) for i in range(na)], b"x" if (nk - 1) % 2 else None, [])
+            yield "ref-decodes-lib", {"tree": to_json(t)}
+            yield "lib-decodes-ref", {"tree": to_json(t), "seed": r.randrange(1 << 30), "deflate": 0}
     n = chk.scale(700, 20000)
     for i in range(n):
         if not chk.time_left():
